@@ -623,6 +623,30 @@ pub fn adjacent_range_family(pool: &Pool) -> Vec<T> {
     ranges.push(T::Cat2(Box::new(T::Rng(cuts[4], MAX_CHAR)), b(&T::All)));
     let n = ranges.len();
     let mut v = vec![];
+    // a nullable head over the first range(s) followed by a union over the next adjacent ranges: the classes of
+    // the concatenation are merge(classes(head), classes(tail)) with a multi-interval second operand
+    let rng = |i: usize| -> T {
+        if i + 1 < cuts.len() { T::Rng(cuts[i], cuts[i + 1] - 1) } else { T::Rng(cuts[cuts.len() - 1], MAX_CHAR) }
+    };
+    let tail_of = |is: &[usize]| -> T {
+        let parts: Vec<T> = is.iter().enumerate().map(|(k, &i)| T::Cat2(Box::new(rng(i)), Box::new(T::Chr(120 + k as u32)))).collect();
+        if parts.len() == 1 { parts[0].clone() } else { T::AltL(parts) }
+    };
+    for head_hi in 0..3usize {
+        let head_ranges: Vec<T> = (0..=head_hi).map(rng).collect();
+        let head_body = if head_ranges.len() == 1 { head_ranges[0].clone() } else { T::AltL(head_ranges) };
+        for tail in [vec![head_hi + 1], vec![head_hi + 1, head_hi + 2], vec![head_hi + 2, head_hi + 1], vec![head_hi + 2]] {
+            if tail.iter().any(|&i| i >= n) {
+                continue;
+            }
+            for head in [T::Opt(b(&head_body)), T::Star(b(&head_body)), T::Loop(b(&head_body), 0, Some(2))] {
+                let t = T::Cat2(b(&head), b(&tail_of(&tail)));
+                v.push(t.clone());
+                v.push(T::Not(b(&t)));
+                v.push(T::Cat2(b(&t), b(&T::All)));
+            }
+        }
+    }
     for i in 0..n {
         for j in 0..n {
             for k in 0..n {
